@@ -81,7 +81,8 @@ CHECKS = {
              '(6 thorough) for 4 tracers x 6 geometries (one exactly vertical) x attenuation interpolation off / 0.1; depth-7 '
              'simulations are executed on the real paths: s, p and unpolarized outputs must equal the predicted combinations '
              '(1e-9), lie on the input grid + time of flight, carry no more energy than |c|^2 times the input; polarization '
-             'vectors unit, orthogonal, transverse; attenuation in (0,1], even in f, not growing with |f|; |Fresnel| <= 1.',
+             'vectors unit, orthogonal, transverse; attenuation in (0,1], even in f, not growing with |f|; |Fresnel| <= 1.  The '
+             'bookkeeping without bounds (PropagateRelInd.tla) is an inductive invariant discharged with Apalache in every run.',
         note='Decides linearity in signal and polarization, time invariance / exact delay, the energy inequality, the polarization '
              'vector clauses and the range / monotonicity of the attenuation factor on a 10-point frequency lattice. Does not decide '
              'that the attenuation equals the line integral of 1/L_att, nor the agreement between interpolated and exact '
@@ -97,7 +98,8 @@ CHECKS = {
              'of the current field to the base field (scale fraction, shift in samples, zero flag); TLC checks Consistent '
              'exhaustively to depth 4 (5 thorough) over 3 models x 2 lengths (parity) x 2 steps x 3 EM/hadronic splits x 9 angles; '
              'depth-6 simulations (5 base energies from 1e9 GeV down to below every critical energy, shower times up to and beyond the window edges, grid offsets to 1e6 samples) are executed on the real models with every field compared (1e-9 of the peak), of the right '
-             'length and finite.',
+             'length and finite.  The algebra without its bounds (AskaryanRelInd.tla: any integer factors and moves, any length) has '
+             'Consistent as an inductive invariant, discharged with Apalache in every run.',
         note='Decides the exact relational clauses (1/R, |angle|, joint shift, whole-sample shift, finiteness, zero energy, on-cone '
              'EM energy proportionality) and, on a 0.02 rad lattice only, largest-on-cone and monotone fall-off. Between lattice '
              'points the fall-off clause is numerical and is not decided; the ARZ model violates it on a 0.005 rad lattice (open '
